@@ -17,7 +17,7 @@
    Scheduling (the timer list, the dirty flag, the two time bases) is C06's subject and is kept
    as in the model. *)
 From Coq Require Import NArith List Bool.
-From Morfuse Require Import C13.Model.
+From Morfuse Require Import Base.Arr C13.Model.
 Import ListNotations.
 Local Open Scope N_scope.
 
@@ -41,6 +41,8 @@ Record abs := mkAbs {
   astartclk : N;
   aclock : N;
   acur : option N;
+  adepth : nat;
+  arefs : arr (option N);
   anextid : N;
   anextscript : N;
   astack : list frame;
@@ -48,37 +50,41 @@ Record abs := mkAbs {
   aoof : bool }.
 
 Definition set_ath (v : list (N * athread)) (a : abs) : abs :=
-  mkAbs v (acl a) (ascripts a) (aelems a) (amtime a) (adirty a) (ascaled a) (alastclk a) (astartclk a) (aclock a) (acur a) (anextid a) (anextscript a) (astack a) (aout a) (aoof a).
+  mkAbs v (acl a) (ascripts a) (aelems a) (amtime a) (adirty a) (ascaled a) (alastclk a) (astartclk a) (aclock a) (acur a) (adepth a) (arefs a) (anextid a) (anextscript a) (astack a) (aout a) (aoof a).
 Definition set_acl (v : list (N * N)) (a : abs) : abs :=
-  mkAbs (ath a) v (ascripts a) (aelems a) (amtime a) (adirty a) (ascaled a) (alastclk a) (astartclk a) (aclock a) (acur a) (anextid a) (anextscript a) (astack a) (aout a) (aoof a).
+  mkAbs (ath a) v (ascripts a) (aelems a) (amtime a) (adirty a) (ascaled a) (alastclk a) (astartclk a) (aclock a) (acur a) (adepth a) (arefs a) (anextid a) (anextscript a) (astack a) (aout a) (aoof a).
 Definition set_ascripts (v : list N) (a : abs) : abs :=
-  mkAbs (ath a) (acl a) v (aelems a) (amtime a) (adirty a) (ascaled a) (alastclk a) (astartclk a) (aclock a) (acur a) (anextid a) (anextscript a) (astack a) (aout a) (aoof a).
+  mkAbs (ath a) (acl a) v (aelems a) (amtime a) (adirty a) (ascaled a) (alastclk a) (astartclk a) (aclock a) (acur a) (adepth a) (arefs a) (anextid a) (anextscript a) (astack a) (aout a) (aoof a).
 Definition set_aelems (v : list (N * N)) (a : abs) : abs :=
-  mkAbs (ath a) (acl a) (ascripts a) v (amtime a) (adirty a) (ascaled a) (alastclk a) (astartclk a) (aclock a) (acur a) (anextid a) (anextscript a) (astack a) (aout a) (aoof a).
+  mkAbs (ath a) (acl a) (ascripts a) v (amtime a) (adirty a) (ascaled a) (alastclk a) (astartclk a) (aclock a) (acur a) (adepth a) (arefs a) (anextid a) (anextscript a) (astack a) (aout a) (aoof a).
 Definition set_amtime (v : N) (a : abs) : abs :=
-  mkAbs (ath a) (acl a) (ascripts a) (aelems a) v (adirty a) (ascaled a) (alastclk a) (astartclk a) (aclock a) (acur a) (anextid a) (anextscript a) (astack a) (aout a) (aoof a).
+  mkAbs (ath a) (acl a) (ascripts a) (aelems a) v (adirty a) (ascaled a) (alastclk a) (astartclk a) (aclock a) (acur a) (adepth a) (arefs a) (anextid a) (anextscript a) (astack a) (aout a) (aoof a).
 Definition set_adirty (v : bool) (a : abs) : abs :=
-  mkAbs (ath a) (acl a) (ascripts a) (aelems a) (amtime a) v (ascaled a) (alastclk a) (astartclk a) (aclock a) (acur a) (anextid a) (anextscript a) (astack a) (aout a) (aoof a).
+  mkAbs (ath a) (acl a) (ascripts a) (aelems a) (amtime a) v (ascaled a) (alastclk a) (astartclk a) (aclock a) (acur a) (adepth a) (arefs a) (anextid a) (anextscript a) (astack a) (aout a) (aoof a).
 Definition set_ascaled (v : N) (a : abs) : abs :=
-  mkAbs (ath a) (acl a) (ascripts a) (aelems a) (amtime a) (adirty a) v (alastclk a) (astartclk a) (aclock a) (acur a) (anextid a) (anextscript a) (astack a) (aout a) (aoof a).
+  mkAbs (ath a) (acl a) (ascripts a) (aelems a) (amtime a) (adirty a) v (alastclk a) (astartclk a) (aclock a) (acur a) (adepth a) (arefs a) (anextid a) (anextscript a) (astack a) (aout a) (aoof a).
 Definition set_alastclk (v : N) (a : abs) : abs :=
-  mkAbs (ath a) (acl a) (ascripts a) (aelems a) (amtime a) (adirty a) (ascaled a) v (astartclk a) (aclock a) (acur a) (anextid a) (anextscript a) (astack a) (aout a) (aoof a).
+  mkAbs (ath a) (acl a) (ascripts a) (aelems a) (amtime a) (adirty a) (ascaled a) v (astartclk a) (aclock a) (acur a) (adepth a) (arefs a) (anextid a) (anextscript a) (astack a) (aout a) (aoof a).
 Definition set_astartclk (v : N) (a : abs) : abs :=
-  mkAbs (ath a) (acl a) (ascripts a) (aelems a) (amtime a) (adirty a) (ascaled a) (alastclk a) v (aclock a) (acur a) (anextid a) (anextscript a) (astack a) (aout a) (aoof a).
+  mkAbs (ath a) (acl a) (ascripts a) (aelems a) (amtime a) (adirty a) (ascaled a) (alastclk a) v (aclock a) (acur a) (adepth a) (arefs a) (anextid a) (anextscript a) (astack a) (aout a) (aoof a).
 Definition set_aclock (v : N) (a : abs) : abs :=
-  mkAbs (ath a) (acl a) (ascripts a) (aelems a) (amtime a) (adirty a) (ascaled a) (alastclk a) (astartclk a) v (acur a) (anextid a) (anextscript a) (astack a) (aout a) (aoof a).
+  mkAbs (ath a) (acl a) (ascripts a) (aelems a) (amtime a) (adirty a) (ascaled a) (alastclk a) (astartclk a) v (acur a) (adepth a) (arefs a) (anextid a) (anextscript a) (astack a) (aout a) (aoof a).
 Definition set_acur (v : option N) (a : abs) : abs :=
-  mkAbs (ath a) (acl a) (ascripts a) (aelems a) (amtime a) (adirty a) (ascaled a) (alastclk a) (astartclk a) (aclock a) v (anextid a) (anextscript a) (astack a) (aout a) (aoof a).
+  mkAbs (ath a) (acl a) (ascripts a) (aelems a) (amtime a) (adirty a) (ascaled a) (alastclk a) (astartclk a) (aclock a) v (adepth a) (arefs a) (anextid a) (anextscript a) (astack a) (aout a) (aoof a).
+Definition set_adepth (v : nat) (a : abs) : abs :=
+  mkAbs (ath a) (acl a) (ascripts a) (aelems a) (amtime a) (adirty a) (ascaled a) (alastclk a) (astartclk a) (aclock a) (acur a) v (arefs a) (anextid a) (anextscript a) (astack a) (aout a) (aoof a).
+Definition set_arefs (v : arr (option N)) (a : abs) : abs :=
+  mkAbs (ath a) (acl a) (ascripts a) (aelems a) (amtime a) (adirty a) (ascaled a) (alastclk a) (astartclk a) (aclock a) (acur a) (adepth a) v (anextid a) (anextscript a) (astack a) (aout a) (aoof a).
 Definition set_anextid (v : N) (a : abs) : abs :=
-  mkAbs (ath a) (acl a) (ascripts a) (aelems a) (amtime a) (adirty a) (ascaled a) (alastclk a) (astartclk a) (aclock a) (acur a) v (anextscript a) (astack a) (aout a) (aoof a).
+  mkAbs (ath a) (acl a) (ascripts a) (aelems a) (amtime a) (adirty a) (ascaled a) (alastclk a) (astartclk a) (aclock a) (acur a) (adepth a) (arefs a) v (anextscript a) (astack a) (aout a) (aoof a).
 Definition set_anextscript (v : N) (a : abs) : abs :=
-  mkAbs (ath a) (acl a) (ascripts a) (aelems a) (amtime a) (adirty a) (ascaled a) (alastclk a) (astartclk a) (aclock a) (acur a) (anextid a) v (astack a) (aout a) (aoof a).
+  mkAbs (ath a) (acl a) (ascripts a) (aelems a) (amtime a) (adirty a) (ascaled a) (alastclk a) (astartclk a) (aclock a) (acur a) (adepth a) (arefs a) (anextid a) v (astack a) (aout a) (aoof a).
 Definition set_astack (v : list frame) (a : abs) : abs :=
-  mkAbs (ath a) (acl a) (ascripts a) (aelems a) (amtime a) (adirty a) (ascaled a) (alastclk a) (astartclk a) (aclock a) (acur a) (anextid a) (anextscript a) v (aout a) (aoof a).
+  mkAbs (ath a) (acl a) (ascripts a) (aelems a) (amtime a) (adirty a) (ascaled a) (alastclk a) (astartclk a) (aclock a) (acur a) (adepth a) (arefs a) (anextid a) (anextscript a) v (aout a) (aoof a).
 Definition set_aout (v : list N) (a : abs) : abs :=
-  mkAbs (ath a) (acl a) (ascripts a) (aelems a) (amtime a) (adirty a) (ascaled a) (alastclk a) (astartclk a) (aclock a) (acur a) (anextid a) (anextscript a) (astack a) v (aoof a).
+  mkAbs (ath a) (acl a) (ascripts a) (aelems a) (amtime a) (adirty a) (ascaled a) (alastclk a) (astartclk a) (aclock a) (acur a) (adepth a) (arefs a) (anextid a) (anextscript a) (astack a) v (aoof a).
 Definition set_aoof (v : bool) (a : abs) : abs :=
-  mkAbs (ath a) (acl a) (ascripts a) (aelems a) (amtime a) (adirty a) (ascaled a) (alastclk a) (astartclk a) (aclock a) (acur a) (anextid a) (anextscript a) (astack a) (aout a) v.
+  mkAbs (ath a) (acl a) (ascripts a) (aelems a) (amtime a) (adirty a) (ascaled a) (alastclk a) (astartclk a) (aclock a) (acur a) (adepth a) (arefs a) (anextid a) (anextscript a) (astack a) (aout a) v.
 
 Fixpoint afind (t : N) (l : list (N * athread)) : option athread :=
   match l with
@@ -200,6 +206,40 @@ Fixpoint a_delete (f : nat) (t : N) (a : abs) {struct f} : abs :=
 
 Definition afuel (a : abs) : nat := S (length (ath a)).
 
+(* a thread is told to stop what it is doing (a wait / pause applied to it): its timer element is
+   withdrawn; the thread it waited for is killed *)
+Definition a_stop_full (t : N) (a : abs) : abs :=
+  match afind t (ath a) with
+  | None => a
+  | Some r =>
+      match a_ts r with
+      | TWaiting =>
+          let a1 := aupd_thread t (w_ts TRunning) a in
+          match a_wait r with
+          | None => a1
+          | Some c =>
+              match afind c (ath a1) with
+              | Some rc =>
+                  let found := match a_par rc with Some x => x =? t | None => false end in
+                  let a2 := if found then aupd_thread c (w_par None) a1 else a1 in
+                  let a3 := aupd_thread t (w_wait None) a2 in
+                  if found then a_delete (afuel a3) c a3 else a3
+              | None => a1
+              end
+          end
+      | _ => a_stop t a
+      end
+  end.
+(* a thread has at most one timer element: a new timed wait replaces the old one *)
+Definition a_wait_on (b d : N) (a : abs) : abs :=
+  a_suspend b (a_add_timing b d (aupd_thread b (w_ts TTiming) (a_stop_full b a))).
+Definition a_pause_on (b : N) (a : abs) : abs := a_suspend b (a_stop_full b a).
+Definition a_deref (k : N) (a : abs) : option N :=
+  match get (arefs a) k with
+  | Some x => if aalive x a then Some x else None
+  | None => None
+  end.
+
 (* the instance c ceases to exist: its threads are killed, newest first *)
 Definition a_destroy_class (c : N) (a : abs) : abs :=
   let a1 := set_acl (filter (fun x => negb (fst x =? c)) (acl a)) a in
@@ -238,7 +278,7 @@ Definition a_new_thread (c : N) (p : list instr) (a : abs) : N * abs :=
 Definition a_enter (t : N) (p : list instr) (a : abs) : abs :=
   let saved := acur a in
   let a1 := a_stop t (set_acur (Some t) a) in
-  let a2 := aupd_thread t (w_vs VRunning) a1 in
+  let a2 := set_adepth (S (adepth a1)) (aupd_thread t (w_vs VRunning) a1) in
   set_astack (FExec t p :: FSEI saved :: astack a2) a2.
 Definition a_execute_running (a : abs) : abs :=
   match acur a with
@@ -293,6 +333,11 @@ Definition a_exec_instr (t : N) (i : instr) (r : list instr) (a0 : abs) : abs :=
       | Some k => a_recompile k a
       | None => a
       end
+  | IStore k => set_arefs (set (arefs a) k (Some t)) a
+  | IPause => a_pause_on t a
+  | IXWait k d => match a_deref k a with Some b => a_wait_on b d a | None => a end
+  | IXWaitFrame k => match a_deref k a with Some b => a_wait_on b (aclock a - astartclk a) a | None => a end
+  | IXPause k => match a_deref k a with Some b => a_pause_on b a | None => a end
   end.
 
 Definition a_step (a : abs) : abs :=
@@ -317,14 +362,19 @@ Definition a_step (a : abs) : abs :=
                | Some x => if aalive x a then Some x else None
                | None => None
                end in
-      a_execute_running (a_pop (set_acur c a))
+      let a1 := a_pop (set_acur c (set_adepth (pred (adepth a)) a)) in
+      match adepth a1 with
+      | O => a_execute_running a1                          (* only the outermost execution runs the due threads *)
+      | S _ => a1
+      end
   | FLoop :: _ =>
       match a_get_next a with
       | None => a_pop (set_acur None (set_adirty false a))
       | Some (t, a1) =>
-          let a2 := aupd_thread t (fun x => w_vs VRunning (w_ts TRunning x)) (set_acur (Some t) a1) in
-          set_astack (FExec t (match afind t (ath a2) with Some r => a_cont r | None => [] end) :: astack a2) a2
+          let a2 := set_adepth (S (adepth a1)) (aupd_thread t (fun x => w_vs VRunning (w_ts TRunning x)) (set_acur (Some t) a1)) in
+          set_astack (FExec t (match afind t (ath a2) with Some r => a_cont r | None => [] end) :: FDec :: astack a2) a2
       end
+  | FDec :: _ => a_pop (set_adepth (pred (adepth a)) a)
   end.
 
 Fixpoint a_run_stack (f : nat) (a : abs) : abs :=
@@ -343,9 +393,10 @@ Definition a_weight (a : abs) : nat :=
    + fold_right (fun x n => S (psize (a_cont (snd x))) + n) O (ath a))%nat.
 Definition a_sfuel (a : abs) : nat := (16 + 8 * a_weight a)%nat.
 
-Definition abs_init (c : N) : abs := mkAbs [] [] [] [] 0 false 0 c c c None 0 0 [] [] false.
+Definition abs_init (c : N) : abs := mkAbs [] [] [] [] 0 false 0 c c c None O (aempty None) 0 0 [] [] false.
 
 Definition a_host_step (a0 : abs) (o : op) : abs :=
+  if aoof a0 then a0 else
   let a := set_aout [] a0 in
   match o with
   | OStart p =>
@@ -371,7 +422,7 @@ Definition a_observe (a : abs) : obs :=
   mkObs (rev (aout a))
         (match acl a with [] => true | _ => false end)
         (length (acl a)) (length (ath a)) (length (ath a)) (length (ascripts a))
-        (match aelems a with [] => false | _ => true end)
+        (length (aelems a))
         (if aoof a then 2 else 0)%nat.
 
 Fixpoint spec_from (a : abs) (ops : list op) : list obs :=
